@@ -64,7 +64,7 @@ static void *watchdog(void *a)
 		struct timespec ts = { 1, 0 }; nanosleep(&ts, NULL);
 		long st = __atomic_load_n(&case_started, __ATOMIC_RELAXED); if (st && (long)time(NULL) - st > 150) {
 			char m[400]; int n = snprintf(m, sizeof m, "V {\"key\":\"logt:case-does-not-finish\",\"case\":%ld,\"seed\":0,\"detail\":\"no end of the case after 150 s (producer, logging thread or qb_log_fini stuck)\",\"desc\":\"watchdog\"}\n", __atomic_load_n(&case_no, __ATOMIC_RELAXED));
-			if (write(1, m, (size_t)n) < 0) {} _exit(3); }
+			if (write(vp_out ? fileno(vp_out) : 1, m, (size_t)n) < 0) {} _exit(3); }   /* fd 1 is the capture file of the 'messages lost' reports */
 	}
 	return NULL;
 }
